@@ -3,7 +3,7 @@ system embedded in a JSON document, merged with itself / with an empty type syst
 which some types are declared below a more general ancestor (so that the merge has to re-parent them).  Every derivation
 must yield the same declared tree and the same effective features as the original (C10, C11: "after XML loading, JSON loading
 and merging")."""
-KINDS = ["xml", "json", "merge-self", "merge-empty", "merge-reparent", "merge-extend"]
+KINDS = ["xml", "json", "merge-self", "merge-empty", "merge-reparent", "merge-extend", "merge-reparent-again"]
 
 
 def derive(rng, sb, ts, sh, kind):
@@ -28,10 +28,11 @@ def derive(rng, sb, ts, sh, kind):
         sb.ops.append({"op": "ts.merge", "inputs": [e, ts] if rng.random() < 0.5 else [ts, e]})
         sb.n_ts += 1
         return sb.n_ts - 1
-    if kind == "merge-reparent":
+    if kind in ("merge-reparent", "merge-reparent-partial"):
         user = [n for n in sh.order if n not in sh.K["predefined"] and n != "uima.tcas.DocumentAnnotation"]
         flat = sb.ts_new()
         flattened = set()
+        partial = kind == "merge-reparent-partial"
         for n in user:
             sup = sh.parent[n]
             anc = sh.ancestors(n)[1:]
@@ -40,8 +41,24 @@ def derive(rng, sb, ts, sh, kind):
                 roots = [a for a in anc if a in sh.K["predefined"]]
                 sup = roots[0]
                 flattened.add(n)
+            elif partial and sup not in sh.K["predefined"]:
+                continue      # the first input declares only the flattened types and the roots: the result lists them first
             sb.create_type(flat, n, sup)
         sb.ops.append({"op": "ts.merge", "inputs": [flat, ts]})
+        sb.n_ts += 1
+        return sb.n_ts - 1
+    if kind == "merge-reparent-again":
+        # a merge result (whose registry lists a re-parented type before its new supertype) merged once more
+        r1 = derive(rng, sb, ts, sh, "merge-reparent-partial")
+        # ... together with a type system that declares (again) the packaged types whose short name is the name of a type
+        # without namespace - they are then merged before everything else
+        e = sb.ts_new()
+        user = [n for n in sh.order if n not in sh.K["predefined"] and n != "uima.tcas.DocumentAnnotation"]
+        bare = {n for n in user if "." not in n}
+        for n in user:
+            if "." in n and n.rsplit(".", 1)[1] in bare and sh.parent[n] in sh.K["predefined"]:
+                sb.create_type(e, n, sh.parent[n])
+        sb.ops.append({"op": "ts.merge", "inputs": [r1, e] if rng.random() < 0.3 else [e, r1]})
         sb.n_ts += 1
         return sb.n_ts - 1
     if kind == "merge-extend":
